@@ -133,6 +133,21 @@ def check_case(res, spec, fit, ignore_four, exprs, label):
                     bad.append(f"junction {v}, interface {p[0]}..{p[-1]} ({len(p)} pts): coefficient {got} but tangent {tuple(t)} (err {err:.2e})")
             else:
                 worst = max(worst, err)
+    # the same ForSys object assembled again with only the ignore-four option changed, and back: each assembly follows its own options
+    try:
+        with impl.quiet():
+            f.build_force_matrix(when=0, metadata={"ignore_four": not ignore_four}, angle_limit=np.inf, circle_fit_method=fit)
+        fm2 = f.force_matrices[0]
+        _, juncs2 = expected_structure(spec, not ignore_four)
+        if set(fm2.map_vid_to_row) != set(juncs2) or np.array(fm2.matrix).shape[0] != 2 * len(juncs2):
+            bad.append(f"re-assembled on the same object with ignore_four={not ignore_four}: equations for {len(fm2.map_vid_to_row)} junctions, "
+                       f"{len(juncs2)} expected (matrix {np.array(fm2.matrix).shape})")
+        with impl.quiet():
+            f.build_force_matrix(when=0, metadata={"ignore_four": ignore_four}, angle_limit=np.inf, circle_fit_method=fit)
+        if not np.array_equal(np.array(f.force_matrices[0].matrix), M):
+            bad.append("re-assembling with the original options does not reproduce the first matrix")
+    except Exception as ex:  # noqa
+        bad.append(f"re-assembling on the same object raised {type(ex).__name__}: {str(ex)[:60]}")
     nz = {(int(i), int(j)) for i, j in zip(*np.nonzero(M))}
     allowed = expected_nz | {(r + 1, k) for r, k in expected_nz}
     if not nz <= allowed:
